@@ -120,10 +120,19 @@ func tTag(c context, s []byte) (context, int) {
 			scriptType: c.scriptType,
 			linkRel:    c.linkRel,
 		}
+		// The element names of other conditional branches count as well.
+		names := c.element.names
+		if len(names) == 0 {
+			names = []string{c.element.name}
+		}
+		allVoid := true
+		for _, name := range names {
+			allVoid = allVoid && name != "" && voidElements[name]
+		}
 		if specialElements[c.element.name] {
 			ret.state = stateSpecialElementBody
 		}
-		if c.element.name != "" && voidElements[c.element.name] {
+		if allVoid {
 			// Special case: end of start tag of a void element.
 			// Discard unnecessary state, since this element have no content.
 			ret.element = element{}
